@@ -169,12 +169,47 @@ COQ_ARGS = ["-Q", "theories", "Synnax", "-w",
             "-notation-overridden,-ambiguous-paths,-deprecated-instance-without-locality,-deprecated-hint-without-locality,-future-coercion-class-field"]
 
 
-def coq_make(timeout=None, targets=None):
+def gen_sources(specs):
+    """Source translator (translator/go2coq): for every spec name, regenerate coq/theories/Generated/<module>.v
+    from REPO's current Go source. Returns (ok, log). Called with the coqmake lock held."""
+    if not specs:
+        return True, ""
+    tdir = os.path.join(ROOT, "translator", "go2coq")
+    binp = os.path.join(BUILD, "bin", "go2coq")
+    os.makedirs(os.path.dirname(binp), exist_ok=True)
+    env = dict(os.environ, GOFLAGS="-mod=mod", GOPROXY="off")
+    r = subprocess.run(["go", "build", "-o", binp, "."], cwd=tdir, env=env, stdout=subprocess.PIPE,
+                       stderr=subprocess.STDOUT, text=True)
+    if r.returncode != 0:
+        return False, "go2coq does not build: " + r.stdout[-1500:]
+    logs = []
+    for name in specs:
+        sp = os.path.join(ROOT, "translator", "specs", name + ".json")
+        mod = json.load(open(sp))["module"]
+        r = subprocess.run([binp, REPO, sp], stdout=subprocess.PIPE, stderr=subprocess.PIPE, text=True)
+        if r.returncode != 0:
+            return False, "go2coq %s: %s" % (name, r.stderr[-1500:])
+        gp = os.path.join(COQ, "theories", "Generated", mod + ".v")
+        old = open(gp).read() if os.path.exists(gp) else None
+        if old != r.stdout:
+            with open(gp, "w") as fh:
+                fh.write(r.stdout)
+            logs.append("Generated/%s.v rewritten from the Go source" % mod)
+    return True, "; ".join(logs)
+
+
+def coq_make(timeout=None, targets=None, src_specs=None):
     """Full .vo build (incremental) of the whole development (targets=None) or of the given .vo
     targets and everything they depend on. Returns (ok, log)."""
     if timeout is None:
         timeout = 1200 if targets else 7200
     with Lock("coqmake"):
+        if src_specs:
+            gok, glog = gen_sources(src_specs)
+            if not gok:
+                return False, "source translator failed: " + glog
+            if glog:
+                log("[go2coq] " + glog)
         files = coq_project_files()
         proj = "-Q theories Synnax\n" + \
                "-arg -w -arg %s\n" % COQ_ARGS[-1] + "\n".join(files) + "\n"
